@@ -2,6 +2,7 @@ package main
 
 import (
 	"fmt"
+	"math/big"
 	"go/types"
 	"os"
 	"sort"
@@ -48,7 +49,7 @@ func newEngine(tier string) (*Engine, error) {
 func (e *Engine) newVC(fn *ssa.Function, c *Contract, prop string) *VC {
 	vc := &VC{P: e.P, CS: e.CS, B: NewBuilder(), fn: fn, c: c, prop: prop, notes: map[string]bool{},
 		epochs: map[int]epochMerge{}, sortOf: map[string]Sort{}, typeIDs: map[string]int{}, strConsts: map[string]*Term{},
-		counters: map[string]int{}, factSeen: map[*Term]bool{}, ghostParent: map[int]int{}, factIndex: map[*Term]int{}}
+		counters: map[string]int{}, factSeen: map[*Term]bool{}, ghostParent: map[int]int{}, factIndex: map[*Term]int{}, varMemo: map[*Term]*big.Int{}, varIDs: map[*Term]int{}}
 	return vc
 }
 
@@ -350,38 +351,55 @@ func (vc *VC) splitExhaustive() error {
 
 // ---------------------------------------------------------------- discharge
 
-func termVars(t *Term, memo map[*Term]map[*Term]bool) map[*Term]bool {
-	if r, ok := memo[t]; ok {
+// varSet computes (memoised per VC) the set of declared variables of a term as a bitset.
+func (vc *VC) varSet(t *Term) *big.Int {
+	if r, ok := vc.varMemo[t]; ok {
 		return r
 	}
-	r := map[*Term]bool{}
+	r := new(big.Int)
 	if t.op == "var" {
-		r[t] = true
+		id, ok := vc.varIDs[t]
+		if !ok {
+			id = len(vc.varIDs)
+			vc.varIDs[t] = id
+		}
+		r.SetBit(r, id, 1)
 	}
 	for _, a := range t.args {
-		for v := range termVars(a, memo) {
-			r[v] = true
-		}
+		r.Or(r, vc.varSet(a))
 	}
-	memo[t] = r
+	vc.varMemo[t] = r
 	return r
+}
+
+var bigZero = new(big.Int)
+
+func intersects(a, b *big.Int) bool {
+	return new(big.Int).And(a, b).Sign() != 0
 }
 
 func (o *Obligation) script() (string, []string) { return o.scriptWith(nil) }
 
+// scriptQF: the same query with every quantified hypothesis dropped (a weaker, sound set of
+// hypotheses); most run-time-check obligations discharge from it quickly.
+func (o *Obligation) scriptQF() (string, bool) {
+	o.qfOnly = true
+	defer func() { o.qfOnly = false }()
+	if o.Goal.quant {
+		return "", false
+	}
+	s, _ := o.scriptWith(nil)
+	return s, o.droppedQuant
+}
+
 func (o *Obligation) scriptWith(extra []*Term) (string, []string) {
 	vc := o.vc
 	B := vc.B
-	memo := map[*Term]map[*Term]bool{}
-	rel := map[*Term]bool{}
+	rel := new(big.Int)
 	for _, h := range o.Hyps {
-		for v := range termVars(h, memo) {
-			rel[v] = true
-		}
+		rel.Or(rel, vc.varSet(h))
 	}
-	for v := range termVars(o.Goal, memo) {
-		rel[v] = true
-	}
+	rel.Or(rel, vc.varSet(o.Goal))
 	var facts []*Term
 	if o.FIdx != nil && os.Getenv("GOVC_ALLFACTS") == "" {
 		seen := map[int]bool{}
@@ -397,13 +415,6 @@ func (o *Obligation) scriptWith(extra []*Term) (string, []string) {
 				facts = append(facts, vc.facts[i])
 			}
 		}
-		if os.Getenv("GOVC_DIFFFACTS") != "" && strings.Contains(o.Name, os.Getenv("GOVC_DIFFFACTS")) {
-			for i, fc := range vc.facts {
-				if !seen[i] {
-					fmt.Fprintf(os.Stderr, "EXCLUDED %d: %s\n", i, B.Show(fc))
-				}
-			}
-		}
 	} else {
 		facts = vc.facts[:o.NFacts]
 	}
@@ -415,30 +426,48 @@ func (o *Obligation) scriptWith(extra []*Term) (string, []string) {
 			if used[i] {
 				continue
 			}
-			vs := termVars(fct, memo)
-			hit := len(vs) == 0
-			for v := range vs {
-				if rel[v] {
-					hit = true
-					break
-				}
-			}
-			if hit {
+			vs := vc.varSet(fct)
+			if vs.Sign() == 0 || intersects(vs, rel) {
 				used[i] = true
 				changed = true
-				for v := range vs {
-					rel[v] = true
-				}
+				rel.Or(rel, vs)
 			}
 		}
 	}
 	var asserts []*Term
+	o.droppedQuant = false
 	for i, fct := range facts {
 		if used[i] {
+			if o.qfOnly && fct.quant {
+				o.droppedQuant = true
+				continue
+			}
 			asserts = append(asserts, fct)
 		}
 	}
-	asserts = append(asserts, o.Hyps...)
+	if o.qfOnly {
+		for _, h := range o.Hyps {
+			var conj []*Term
+			if h.op == "and" {
+				conj = h.args
+			} else {
+				conj = []*Term{h}
+			}
+			for _, c := range conj {
+				if c.quant {
+					o.droppedQuant = true
+					continue
+				}
+				asserts = append(asserts, c)
+			}
+		}
+	} else {
+		asserts = append(asserts, o.Hyps...)
+	}
+	if o.wantInst {
+		o.instAsserts = asserts
+		return "", nil
+	}
 	asserts = append(asserts, B.Not(o.Goal))
 	asserts = append(asserts, extra...)
 	var gv []*Term
@@ -458,51 +487,93 @@ func (o *Obligation) scriptWith(extra []*Term) (string, []string) {
 	return B.Query(asserts, gv), names
 }
 
+var builderMu sync.Mutex
+
 func (e *Engine) discharge(obls []*Obligation) {
 	var wg sync.WaitGroup
 	sem := make(chan struct{}, 12)
-	// scripts are generated sequentially (the builder is not concurrency-safe)
-	scripts := make([]string, len(obls))
-	mnames := make([][]string, len(obls))
 	t0 := time.Now()
-	for i, o := range obls {
-		if o.Res.Verdict != "" {
-			continue
+	var genTime time.Duration
+	var genMu sync.Mutex
+	gen := func(o *Obligation, f func()) {
+		mu := &builderMu
+		if o.vc != nil {
+			mu = &o.vc.B.mu
 		}
-		scripts[i], mnames[i] = o.script()
+		mu.Lock()
+		t := time.Now()
+		f()
+		d := time.Since(t)
+		mu.Unlock()
+		genMu.Lock()
+		genTime += d
+		genMu.Unlock()
 	}
-	if os.Getenv("GOVC_TIMING") != "" {
-		n := 0
-		for _, s := range scripts {
-			n += len(s)
-		}
-		fmt.Fprintf(os.Stderr, "timing: %d scripts, %d bytes, generated in %.2fs\n", len(scripts), n, time.Since(t0).Seconds())
-	}
-	for i, o := range obls {
+	for _, o := range obls {
 		if o.Res.Verdict != "" {
 			continue // decided by evaluation
 		}
 		wg.Add(1)
-		go func(i int, o *Obligation) {
+		go func(o *Obligation) {
 			defer wg.Done()
 			sem <- struct{}{}
 			defer func() { <-sem }()
 			to := e.timeout
-			if o.Cover && to > 5 {
-				to = 5
+			if o.Cover && to > 3 {
+				to = 3
 			}
-			o.Res = solve(o.Name, scripts[i], to, e.all && !o.Cover)
-			if o.Res.Verdict == "sat" && len(o.Res.ModelList) == len(mnames[i]) {
+			var script, qf, inst string
+			var names []string
+			if !o.Cover {
+				// stage 1: quantifier-free weakening of the hypotheses
+				gen(o, func() {
+					if q, dropped := o.scriptQF(); dropped {
+						qf = q
+					}
+				})
+				if qf != "" {
+					r := solve(o.Name+"_qf", qf, 4, false)
+					if r.Verdict == "unsat" {
+						r.Solver += " (quantifier-free hypotheses)"
+						o.Res = r
+						return
+					}
+				}
+				// stage 2: engine-side instantiation of quantified hypotheses
+				gen(o, func() {
+					o.wantInst = true
+					o.scriptWith(nil)
+					o.wantInst = false
+					if as, ok := instantiateQuery(o.vc.B, o.instAsserts, o.vc.B.Not(o.Goal)); ok {
+						inst = o.vc.B.Query(as, nil)
+					}
+					o.instAsserts = nil
+				})
+				if inst != "" {
+					r := solve(o.Name+"_inst", inst, 10, false)
+					if r.Verdict == "unsat" {
+						r.Solver += " (instantiated hypotheses)"
+						o.Res = r
+						return
+					}
+				}
+			}
+			gen(o, func() { script, names = o.script() })
+			o.Res = solve(o.Name, script, to, e.all && !o.Cover)
+			if o.Res.Verdict == "sat" && len(o.Res.ModelList) == len(names) {
 				o.Res.Model = map[string]string{}
-				for j, n := range mnames[i] {
+				for j, n := range names {
 					o.Res.Model[n] = o.Res.ModelList[j]
 				}
 			}
-		}(i, o)
+		}(o)
 	}
 	wg.Wait()
+	if os.Getenv("GOVC_TIMING") != "" {
+		fmt.Fprintf(os.Stderr, "timing: %d obligations, query generation %.2fs, wall %.2fs\n", len(obls), genTime.Seconds(), time.Since(t0).Seconds())
+	}
 	// minimise counterexamples: ask again with small sizes so that replays are executable
-	for i, o := range obls {
+	for _, o := range obls {
 		if o.vc == nil || o.Cover || o.Res.Verdict != "sat" || len(o.vc.smallHints) == 0 {
 			continue
 		}
@@ -517,7 +588,6 @@ func (e *Engine) discharge(obls []*Obligation) {
 			o.Res.ModelList = r.ModelList
 			o.Res.Output = r.Output
 		}
-		_ = i
 	}
 }
 
